@@ -26,7 +26,7 @@ type exp struct {
 	fgs, bgs                      []string
 }
 
-var contentAlphabet = []rune("abcdefghijklmnopqrstuvwxyzABCDEFGHIJKLMNOPQRSTUVWXYZ日本語漢字αβγδéñ😀#@%&")
+var contentAlphabet = []rune("abcdefghijklmnopqrstuvwxyzABCDEFGHIJKLMNOPQRSTUVWXYZ日本語漢字αβγδéñ😀#@%&\u0301\u0308\u20dd\u0301")
 
 var decoration = map[rune]bool{'⯁': true, '•': true, '‣': true, '▌': true, '…': true, '│': true, '┃': true, '→': true,
 	'⁰': true, '¹': true, '²': true, '³': true, '⁴': true, '⁵': true, '⁶': true, '⁷': true, '⁸': true, '⁹': true}
@@ -35,6 +35,9 @@ type styleFn struct {
 	name  string
 	apply func(s string, r *rand.Rand) string
 	mark  func(e *exp)
+	// applyN / arg: the same call with an explicit numeric argument (link number, header level), so that the reference knows it
+	arg func(r *rand.Rand) int
+	run func(s string, n int) string
 }
 
 func fg(which string) string { return "2;" + which }
@@ -42,20 +45,20 @@ func fg(which string) string { return "2;" + which }
 func styleFns() []styleFn {
 	col := config.Parsed.Style.Colors
 	return []styleFn{
-		{"Bold", func(s string, _ *rand.Rand) string { return style.Bold(s) }, func(e *exp) { e.bold = true }},
-		{"Italic", func(s string, _ *rand.Rand) string { return style.Italic(s) }, func(e *exp) { e.italic = true }},
-		{"Underline", func(s string, _ *rand.Rand) string { return style.Underline(s) }, func(e *exp) { e.underline = true }},
-		{"Strikethrough", func(s string, _ *rand.Rand) string { return style.Strikethrough(s) }, func(e *exp) { e.strike = true }},
-		{"Code", func(s string, _ *rand.Rand) string { return style.Code(s) }, func(e *exp) { e.bgs = append(e.bgs, fg(col.Code)) }},
-		{"CodeBlock", func(s string, _ *rand.Rand) string { return style.CodeBlock(s) }, func(e *exp) { e.bgs = append(e.bgs, fg(col.Code)) }},
-		{"Highlight", func(s string, _ *rand.Rand) string { return style.Highlight(s) }, func(e *exp) { e.bgs = append(e.bgs, fg(col.Highlight)) }},
-		{"Color", func(s string, _ *rand.Rand) string { return style.Color(s) }, func(e *exp) { e.fgs = append(e.fgs, fg(col.Primary)) }},
-		{"Red", func(s string, _ *rand.Rand) string { return style.Red(s) }, func(e *exp) { e.fgs = append(e.fgs, fg(col.Error)) }},
-		{"Link", func(s string, r *rand.Rand) string { return style.Link(s, 1+r.Intn(120)) }, func(e *exp) { e.underline = true; e.fgs = append(e.fgs, fg(col.Primary)) }},
-		{"LinkBlock", func(s string, r *rand.Rand) string { return style.LinkBlock(s, 1+r.Intn(120)) }, func(e *exp) { e.underline = true; e.fgs = append(e.fgs, fg(col.Primary)) }},
-		{"Header", func(s string, r *rand.Rand) string { return style.Header(s, uint(1+r.Intn(6))) }, func(e *exp) { e.bold = true; e.fgs = append(e.fgs, fg(col.Primary)) }},
-		{"QuoteBlock", func(s string, _ *rand.Rand) string { return style.QuoteBlock(s) }, func(e *exp) { e.fgs = append(e.fgs, fg(col.Primary)) }},
-		{"Bullet", func(s string, _ *rand.Rand) string { return style.Bullet(s) }, func(e *exp) {}},
+		{name: "Bold", apply: func(s string, _ *rand.Rand) string { return style.Bold(s) }, mark: func(e *exp) { e.bold = true }},
+		{name: "Italic", apply: func(s string, _ *rand.Rand) string { return style.Italic(s) }, mark: func(e *exp) { e.italic = true }},
+		{name: "Underline", apply: func(s string, _ *rand.Rand) string { return style.Underline(s) }, mark: func(e *exp) { e.underline = true }},
+		{name: "Strikethrough", apply: func(s string, _ *rand.Rand) string { return style.Strikethrough(s) }, mark: func(e *exp) { e.strike = true }},
+		{name: "Code", apply: func(s string, _ *rand.Rand) string { return style.Code(s) }, mark: func(e *exp) { e.bgs = append(e.bgs, fg(col.Code)) }},
+		{name: "CodeBlock", apply: func(s string, _ *rand.Rand) string { return style.CodeBlock(s) }, mark: func(e *exp) { e.bgs = append(e.bgs, fg(col.Code)) }},
+		{name: "Highlight", apply: func(s string, _ *rand.Rand) string { return style.Highlight(s) }, mark: func(e *exp) { e.bgs = append(e.bgs, fg(col.Highlight)) }},
+		{name: "Color", apply: func(s string, _ *rand.Rand) string { return style.Color(s) }, mark: func(e *exp) { e.fgs = append(e.fgs, fg(col.Primary)) }},
+		{name: "Red", apply: func(s string, _ *rand.Rand) string { return style.Red(s) }, mark: func(e *exp) { e.fgs = append(e.fgs, fg(col.Error)) }},
+		{name: "Link", mark: func(e *exp) { e.underline = true; e.fgs = append(e.fgs, fg(col.Primary)) }, arg: func(r *rand.Rand) int { return 1 + r.Intn(120) }, run: func(s string, n int) string { return style.Link(s, n) }},
+		{name: "LinkBlock", mark: func(e *exp) { e.underline = true; e.fgs = append(e.fgs, fg(col.Primary)) }, arg: func(r *rand.Rand) int { return 1 + r.Intn(120) }, run: func(s string, n int) string { return style.LinkBlock(s, n) }},
+		{name: "Header", mark: func(e *exp) { e.bold = true; e.fgs = append(e.fgs, fg(col.Primary)) }, arg: func(r *rand.Rand) int { return 1 + r.Intn(6) }, run: func(s string, n int) string { return style.Header(s, uint(n)) }},
+		{name: "QuoteBlock", apply: func(s string, _ *rand.Rand) string { return style.QuoteBlock(s) }, mark: func(e *exp) { e.fgs = append(e.fgs, fg(col.Primary)) }},
+		{name: "Bullet", apply: func(s string, _ *rand.Rand) string { return style.Bullet(s) }, mark: func(e *exp) {}},
 	}
 }
 
@@ -67,7 +70,7 @@ type builder struct {
 }
 
 // returns the styled string and the expectation for its content characters
-func (b *builder) node(depth int) (string, []exp) {
+func (b *builder) node(depth int) (string, []exp, []rcell) {
 	choice := b.r.Intn(10)
 	if depth <= 0 || b.budget <= 0 {
 		choice = 0
@@ -98,36 +101,186 @@ func (b *builder) node(depth int) (string, []exp) {
 				es[i].fgs = append(es[i].fgs, fg(col.Error))
 			}
 			b.desc.WriteString("Problem(" + strconv.Quote(msg) + ")")
-			return style.Problem(errors.New(msg)), es
+			return style.Problem(errors.New(msg)), es, rstyle("Problem", rtext(msg), 0)
 		}
 		b.desc.WriteString(strconv.Quote(sb.String()))
-		return sb.String(), es
+		return sb.String(), es, rtext(sb.String())
 	case choice < 5: // concatenation
 		k := 2 + b.r.Intn(3)
 		var s string
 		var es []exp
+		var rc []rcell
 		b.desc.WriteString("cat(")
 		for i := 0; i < k; i++ {
 			if i > 0 {
 				b.desc.WriteString(", ")
 			}
-			cs, ce := b.node(depth - 1)
+			cs, ce, cr := b.node(depth - 1)
 			s += cs
 			es = append(es, ce...)
+			rc = append(rc, cr...)
 		}
 		b.desc.WriteString(")")
-		return s, es
+		return s, es, rc
 	default:
 		f := b.fns[b.r.Intn(len(b.fns))]
 		b.desc.WriteString(f.name + "(")
-		cs, ce := b.node(depth - 1)
-		b.desc.WriteString(")")
-		out := f.apply(cs, b.r)
+		cs, ce, cr := b.node(depth - 1)
+		n := 0
+		var out string
+		if f.run != nil {
+			n = f.arg(b.r)
+			out = f.run(cs, n)
+			b.desc.WriteString(fmt.Sprintf(", %d)", n))
+		} else {
+			out = f.apply(cs, b.r)
+			b.desc.WriteString(")")
+		}
 		for i := range ce {
 			f.mark(&ce[i])
 		}
-		return out, ce
+		return out, ce, rstyle(f.name, cr, n)
 	}
+}
+
+
+/* ---- cell-level reference of the styling layer: what every character (content, decoration, whitespace) must look like ---- */
+
+type rcell struct {
+	r                               rune
+	nl                              bool
+	bold, italic, underline, strike bool
+	fgs, bgs                        []string
+}
+
+func rtext(s string) []rcell {
+	var out []rcell
+	for _, r := range s {
+		out = append(out, rcell{r: r, nl: r == '\n'})
+	}
+	return out
+}
+
+func rapply(cells []rcell, mark func(*rcell)) []rcell {
+	out := make([]rcell, len(cells))
+	for i, c := range cells {
+		c.fgs = append([]string{}, c.fgs...)
+		c.bgs = append([]string{}, c.bgs...)
+		if !c.nl {
+			mark(&c)
+		}
+		out[i] = c
+	}
+	return out
+}
+
+func rindent(cells []rcell, prefix string, first bool) []rcell {
+	var out []rcell
+	if first {
+		out = append(out, rtext(prefix)...)
+	}
+	for _, c := range cells {
+		out = append(out, c)
+		if c.nl {
+			out = append(out, rtext(prefix)...)
+		}
+	}
+	return out
+}
+
+func rsuper(n int) []rcell {
+	var out []rcell
+	for _, d := range strconv.Itoa(n) {
+		out = append(out, rcell{r: []rune("⁰¹²³⁴⁵⁶⁷⁸⁹")[d-'0']})
+	}
+	return out
+}
+
+// rstyle mirrors what each style function is documented to do, at the level of cells
+func rstyle(name string, cells []rcell, n int) []rcell {
+	col := config.Parsed.Style.Colors
+	fgm := func(v string) func(*rcell) { return func(c *rcell) { c.fgs = append(c.fgs, fg(v)) } }
+	bgm := func(v string) func(*rcell) { return func(c *rcell) { c.bgs = append(c.bgs, fg(v)) } }
+	link := func(cs []rcell) []rcell {
+		u := rapply(cs, func(c *rcell) { c.underline = true })
+		return rapply(append(u, rsuper(n)...), fgm(col.Primary))
+	}
+	switch name {
+	case "Bold":
+		return rapply(cells, func(c *rcell) { c.bold = true })
+	case "Italic":
+		return rapply(cells, func(c *rcell) { c.italic = true })
+	case "Underline":
+		return rapply(cells, func(c *rcell) { c.underline = true })
+	case "Strikethrough":
+		return rapply(cells, func(c *rcell) { c.strike = true })
+	case "Code", "CodeBlock":
+		return rapply(cells, bgm(col.Code))
+	case "Highlight":
+		return rapply(cells, bgm(col.Highlight))
+	case "Color":
+		return rapply(cells, fgm(col.Primary))
+	case "Red", "Problem":
+		return rapply(cells, fgm(col.Error))
+	case "Link":
+		return link(cells)
+	case "LinkBlock":
+		// the marker and the hanging indentation are not part of the link
+		return append(rtext("‣ "), rindent(link(cells), "  ", false)...)
+	case "Header":
+		pre := append(rtext(strings.Repeat("⯁", n)+" "), rindent(cells, strings.Repeat(" ", n+1), false)...)
+		return rapply(rapply(pre, func(c *rcell) { c.bold = true }), fgm(col.Primary))
+	case "QuoteBlock":
+		return rapply(rindent(cells, "▌", true), fgm(col.Primary))
+	case "Bullet":
+		return append(rtext("• "), rindent(cells, "  ", false)...)
+	}
+	return cells
+}
+
+// compareCells: every cell of the output (whitespace and decoration included) against the reference
+func compareCells(out string, want []rcell) (string, string) {
+	sc := term.ParseKeep(out)
+	var got []term.Cell
+	var gotNL []bool
+	for li, l := range sc.Lines {
+		for _, c := range l {
+			got = append(got, c)
+			gotNL = append(gotNL, false)
+		}
+		if li < len(sc.Lines)-1 {
+			got = append(got, term.Cell{R: '\n'})
+			gotNL = append(gotNL, true)
+		}
+	}
+	if len(got) != len(want) {
+		return "style:cell-count", fmt.Sprintf("%d characters displayed, the reference has %d", len(got), len(want))
+	}
+	for i, g := range got {
+		w := want[i]
+		if gotNL[i] != w.nl || (!w.nl && g.R != w.r) {
+			return "style:cell-order", fmt.Sprintf("character %d is %q, the reference has %q", i, g.R, w.r)
+		}
+		if w.nl {
+			continue
+		}
+		kind := "content"
+		if unicode.IsSpace(w.r) {
+			kind = "whitespace"
+		} else if decoration[w.r] {
+			kind = "decoration"
+		}
+		if g.A.Bold != w.bold || g.A.Italic != w.italic || g.A.Underline != w.underline || g.A.Strike != w.strike {
+			return "style:flags:" + kind, fmt.Sprintf("%s character %d %q shown as [%s], expected bold=%v italic=%v underline=%v strike=%v", kind, i, g.R, g.A, w.bold, w.italic, w.underline, w.strike)
+		}
+		if len(w.fgs) == 0 && g.A.Fg != "" || len(w.fgs) > 0 && !in(w.fgs, g.A.Fg) {
+			return "style:fg:" + kind, fmt.Sprintf("%s character %d %q has foreground %q, expected one of %v", kind, i, g.R, g.A.Fg, w.fgs)
+		}
+		if len(w.bgs) == 0 && g.A.Bg != "" || len(w.bgs) > 0 && !in(w.bgs, g.A.Bg) {
+			return "style:bg:" + kind, fmt.Sprintf("%s character %d %q has background %q, expected one of %v", kind, i, g.R, g.A.Bg, w.bgs)
+		}
+	}
+	return "", ""
 }
 
 func contentCells(sc *term.Scan) []term.Cell {
@@ -279,6 +432,7 @@ func one(c *ev.Ctx, r *rand.Rand, fns []styleFn, sample bool) {
 	b := &builder{r: r, fns: fns, budget: 40}
 	var s string
 	var want []exp
+	var ref []rcell
 	var ops []string
 	desc := func() map[string]any {
 		return map[string]any{"tree": ev.Trunc(b.desc.String(), 500), "layout": ops}
@@ -286,7 +440,7 @@ func one(c *ev.Ctx, r *rand.Rand, fns []styleFn, sample bool) {
 	fail := func(sig, detail, out string) {
 		c.Violation(sig, detail+"\ntree: "+b.desc.String()+"\nlayout: "+strings.Join(ops, " ")+"\noutput: "+ev.Trunc(strconv.QuoteToASCII(out), 1500), desc())
 	}
-	if c.Guard("style:", nil, func() { s, want = b.node(6) }) {
+	if c.Guard("style:", nil, func() { s, want, ref = b.node(6) }) {
 		return
 	}
 	sc := term.Parse(s)
@@ -295,6 +449,11 @@ func one(c *ev.Ctx, r *rand.Rand, fns []styleFn, sample bool) {
 		return
 	}
 	if sig, d := compare(contentCells(sc), want, false); sig != "" {
+		fail(sig, d, s)
+		return
+	}
+	// every character, decoration and whitespace included, against the cell-level reference of the styling layer
+	if sig, d := compareCells(s, ref); sig != "" {
 		fail(sig, d, s)
 		return
 	}
